@@ -252,7 +252,7 @@ Section Model.
   Definition s_call (p : sprof) (ra dec : T) : T :=
     match p with
     | UnityS => none N
-    | Point r d => if neqb N ra r && neqb N dec d then none N else nzero N
+    | Point r d => if pt_call N ra dec r d then none N else nzero N
     end.
   Definition s_names (p : sprof) : list pname := match p with UnityS => [] | Point _ _ => [nRa; nDec] end.
   Definition s_get (p : sprof) (n : pname) : option T :=
@@ -328,6 +328,24 @@ Section Model.
     | _ => Err TypeError
     end.
 
+  (* __call__ with every argument optional, through the code's own `is not None` tests: the
+     spatial profile is evaluated only when BOTH ra and dec are given *)
+  Definition given {A : Type} (o : option A) : option Z := match o with Some _ => Some 0 | None => None end.
+  Definition ffm_call2 (s : store) (l : nat) (ra dec E t : option T) (eu tu : option Z) : res T :=
+    match nth_error s l with
+    | Some (OM Phi0 ls le lt) =>
+        do sp <- get_s s ls; do ep <- get_e s le; do tp <- get_t s lt;
+        let sv := if ffm_if_s (given ra) (given dec)
+                  then match ra, dec with Some a, Some b => s_call sp a b | _, _ => none N end
+                  else none N in
+        let ev := if ffm_if_e (given E) then match E with Some x => e_call ep eu x | None => none N end
+                  else none N in
+        let tv := if ffm_if_t (given t) then match t with Some x => t_call tp tu x | None => none N end
+                  else none N in
+        Ok (ffm_flux N Phi0 sv ev tv)
+    | _ => Err TypeError
+    end.
+
   (* __call__ on array arguments: the (Ncoord, Nenergy, Ntime) outer product; an absent argument
      contributes the one-element array [1] *)
   Definition ffm_call_arr (s : store) (l : nat) (rd : option (list (T * T))) (E t : option (list T))
@@ -397,6 +415,8 @@ Section Model.
     | None => Err IndexError
     end.
 
+  (* MathFunction.copy is `f = deepcopy(self)` (kernel mf_copy pins the call text) followed by
+     `if newparams is not None: f.set_params(newparams)` (kernel mf_copy_with) *)
   (* deepcopy: a profile is copied to a fresh location; a model copies its three
      profiles and itself.  Returns the new store and the location of the copy. *)
   Definition obj_copy (s : store) (l : nat) : res (store * nat) :=
@@ -428,8 +448,10 @@ Section Model.
         | Some _ => Err AttributeError
         | None => Err IndexError
         end
-    | OpCopy l => do r <- obj_copy s l; Ok (fst r)
-    | OpCopyWith l pd => do r <- obj_copy s l; do r2 <- obj_set_params (fst r) (snd r) pd; Ok (fst r2)
+    | OpCopy l => do r <- obj_copy s l; if mf_copy_with None then Err RuntimeError else Ok (fst r)
+    | OpCopyWith l pd =>
+        do r <- obj_copy s l;
+        if mf_copy_with (Some 0) then do r2 <- obj_set_params (fst r) (snd r) pd; Ok (fst r2) else Ok (fst r)
     end.
 
   Fixpoint run (s : store) (ops : list op) : res store :=
